@@ -377,6 +377,30 @@ class ChildrenList(list):
         raise NotImplementedError("Sorting the Children of a Node is not "
                                   "supported.")
 
+    def __iadd__(self, items):
+        '''Extends list __iadd__ (`children += items`) with children node
+        validation by delegating to extend().
+
+        :param items: list of items to be appended to the list.
+        :type items: list of :py:class:`psyclone.psyir.nodes.Node`
+
+        :returns: this list.
+        :rtype: :py:class:`psyclone.psyir.nodes.node.ChildrenList`
+
+        '''
+        self.extend(items)
+        return self
+
+    def __imul__(self, _):
+        '''Override the default __imul__ (`children *= n`) implementation as
+        a Node cannot be listed more than once.
+
+        :raises NotImplementedError: it makes no sense to repeat the Children
+                                     of a Node.
+        '''
+        raise NotImplementedError("Repeating the Children of a Node is not "
+                                  "supported.")
+
 
 class Node():
     '''
